@@ -1,16 +1,19 @@
 ----------------------------- MODULE MC_Source -----------------------------
-(* Step M for C16: every combination of parts is a state; the invariants   *)
-(* are the spec-level properties of SourceSpec (unambiguous rendering,     *)
-(* canonical address text identifies the endpoint, table forms).           *)
+(* Step M for C16: spec-level properties of SourceSpec over ALL combinations *)
+(* of parts (each combination is a state): the rendering is unambiguous,    *)
+(* every well-formed string has one denotation, the canonical address text  *)
+(* identifies the endpoint, the table forms exist.                          *)
 EXTENDS SourceSpec
 ASSUME Anchors
 ASSUME OneDenotation
-ASSUME PrintT(<<"well-formed parts", Cardinality(WFParts), "strings", Cardinality(WFStrings), "endpoints", Cardinality(WFCanon)>>)
+ASSUME UnambiguousAll
+ASSUME CanonInjective
+ASSUME PrintT(<<"well-formed parts", Cardinality(WFParts), "strings", Cardinality(WFStrings),
+                "endpoints", Cardinality(WFCanon)>>)
 VARIABLE p
 Init == p \in Parts
 Next == UNCHANGED p
 Spec == Init /\ [][Next]_p
-InvUnambiguous == Unambiguous(p)
-InvCanonInjective == CanonInjective(p)
 InvTableForms == TableFormsShape(p)
+InvRenderTotal == Len(Render(p)) >= 0 /\ (WellFormed(p) => Len(Canon(Endpoint(p))) > 0 \/ ~HasValue(Endpoint(p)))
 =============================================================================
